@@ -1,6 +1,7 @@
 (* C13 - specification side (definitions only): what a well-formed response header / first record
    is, the initial Inbound states, server zone versions and the response streams a server sends. *)
 From DV Require Import Base.Prelude Model.XfrM Proofs.XfrSets.
+From Coq Require Import Sorting.Permutation.
 
 (* a response message whose header is acceptable: NOERROR, and no question or the right one *)
 Definition header_ok (rdt : Z) (w : wmsg) : Prop :=
@@ -85,3 +86,24 @@ Definition chain_ok (v0 : version) (chain : list version) : Prop :=
 Definition chunking (rdt : Z) (stream : list rr) (ws : list wmsg) : Prop :=
   Forall (header_ok rdt) ws /\ concat (map w_records ws) = stream /\
   match ws with w :: _ => w_records w <> [] | [] => False end.
+
+(* the zone holds, at the apex, an SOA RRset with the rdata of the SOA announced in s0 *)
+Definition announced (s0 : rrset) (z : zone) : Prop :=
+  exists ttl ds, look z (origin, tSOA, s_covers s0) = Some (ttl, ds) /\ set_eqb ds (s_data s0) = true.
+
+(* RFC 1995 does not fix the order of the records inside a deletion or addition section, RFC 5936
+   does not fix the order of an AXFR body: the general form of a valid response *)
+Inductive ixfr_seqs : version -> list version -> list rr -> Prop :=
+| seqs_nil : forall v, ixfr_seqs v [] []
+| seqs_cons : forall v w rest D A tail,
+    Permutation D (zminus (v_rest v) (v_rest w)) ->
+    Permutation A (zminus (v_rest w) (v_rest v)) ->
+    ixfr_seqs w rest tail ->
+    ixfr_seqs v (w :: rest) (soa_rr v :: D ++ soa_rr w :: A ++ tail).
+
+Definition ixfr_response (v0 : version) (chain : list version) (recs : list rr) : Prop :=
+  exists mid, ixfr_seqs v0 chain mid /\
+              recs = soa_rr (last chain v0) :: mid ++ [soa_rr (last chain v0)].
+
+Definition axfr_response (v : version) (recs : list rr) : Prop :=
+  exists B, Permutation B (body (v_rest v)) /\ recs = soa_rr v :: B ++ [soa_rr v].
